@@ -115,6 +115,10 @@ def classify2(prog, f, sink, what, d, n):
     cap, kind = dest_cap(prog, f, d)
     nb = _uncast(n)
     B = Bounder(prog, f)
+    if cap is not None and kind in ("field", "flex"):
+        r = _offset_obligation(prog, f, L, B, sink, d, n, cap)
+        if r is not None:
+            return r
     if cap is not None:
         if nb.is_const and nb.is_int and cap.const is not None and nb.uval <= cap.const:
             return ("C", repr(cap), "constant length %d fits" % nb.uval)
@@ -309,6 +313,44 @@ def run_k6(chk, prog, files, exceptions, rule="K6", known_fn=None):
     return n
 
 
+def run_k6_src(chk, prog, files, exceptions, rule="K6-src"):
+    """the reading side of copies: a memcpy/memmove whose *source* lies in a buffer that an object field designates
+    (block caches, scratch buffers, tables) reads  offset + length <= capacity  bytes of it.  Sources of other kinds
+    (objects copied whole, strings, caller memory) are not in the scope of this rule."""
+    cnt = 0
+    for f in prog.functions():
+        if f.unit.src not in files:
+            continue
+        k = 0
+        for c in f.calls():
+            nm = norm_callee(c.callee)
+            if nm not in ("memcpy", "memmove") or len(c.ops) < 3:
+                continue
+            src, n_ = c.ops[1], c.ops[2]
+            try:
+                cap, kind = dest_cap(prog, f, src)
+            except Exception:
+                cap, kind = None, "unknown"
+            if cap is None or kind != "field":
+                continue
+            inst = "%s:%s-src#%d" % (f.name, nm, k)
+            key = (f.name, nm, k)
+            k += 1
+            cnt += 1
+            chk.analysed(f)
+            cls, capt, detail = classify2(prog, f, c, nm, src, n_)
+            if cls == "X":
+                if key in exceptions:
+                    chk.exception(rule, inst, c, exceptions[key])
+                else:
+                    chk.violation(rule, inst, c, "%s reads from %s and the end of the access is not bounded by the buffer's "
+                                  "capacity on every path (%s): a value taken from the image moves the read outside the "
+                                  "buffer" % (nm, capt, detail))
+            else:
+                chk.ok(rule, inst, c, "%s [%s]" % (detail, capt))
+    return cnt
+
+
 def _multi_alloc(prog, f, L, sink, d, n):
     """the destination pointer lives in a location that several branches fill with different allocations: the
     length must fit every one of them"""
@@ -348,3 +390,182 @@ def _multi_alloc(prog, f, L, sink, d, n):
         return ("X", "allocation at %s:%d" % (al.file, al.line), "length does not fit one of the %d allocations that can "
                 "provide the destination" % len(allocs))
     return ("A", "%d allocation sites" % len(allocs), "length fits every allocation that can provide the destination")
+
+
+# ---------------------------------------------------------------------------------------------------------------
+# offsets into a buffer that an object field designates:  offset + length <= capacity
+# ---------------------------------------------------------------------------------------------------------------
+
+def _buffer_offset(prog, f, L, d):
+    """linear byte offset of pointer d from the start of the buffer it points into (the pointer loaded from a field,
+    or the first byte of a flexible array member) -> form or None"""
+    off = {}
+    v = d
+    while True:
+        if v.is_inst and v.op in ("bitcast", "addrspacecast"):
+            v = v.ops[0]
+            continue
+        if v.is_inst and v.op == "getelementptr":
+            add = {}
+            flex = False
+            for el in v.x["gep"]:
+                if el[0] == "*":
+                    add = L.add(add, L.scale(L.form(el[1]), el[2]))
+                elif el[0] == "[]":
+                    add = L.add(add, L.scale(L.form(el[1]), el[3]))
+                elif el[0] == "?":
+                    return None
+                else:
+                    st = prog.struct(el[0], f.unit)
+                    if st is None:
+                        return None
+                    e = st["elems"][el[1]]
+                    if e["sz"] == 0 and el[1] == len(st["elems"]) - 1:
+                        # start of a flexible member: offsets counted from here; whatever led to the object is not
+                        # an offset into the buffer
+                        add = {}
+                        flex = True
+                        continue
+                    add = L.add(add, {None: e["off"]})
+            off = L.add(off, add)
+            if flex:
+                return off
+            v = v.ops[0]
+            continue
+        return off
+
+
+def _machine_exact(v, depth=0):
+    """every arithmetic node of v is 64 bits wide: its value is the ideal linear form modulo 2^64, like pointer
+    arithmetic"""
+    while v.is_inst and v.op in ("zext", "sext", "bitcast"):
+        if v.op in ("zext", "sext"):
+            # below an extension the arithmetic must not wrap at a smaller width: only leaves allowed
+            x = v.ops[0]
+            while x.is_inst and x.op in ("zext", "sext", "bitcast"):
+                x = x.ops[0]
+            return not (x.is_inst and x.op in ("add", "sub", "mul", "shl", "trunc"))
+        v = v.ops[0]
+    if v.is_inst and v.op == "trunc":
+        return False
+    if v.is_inst and v.op in ("add", "sub", "mul", "shl") and depth < 8:
+        if getattr(v, "ty", "") != "i64":
+            return False
+        return all(_machine_exact(o, depth + 1) for o in v.ops)
+    return True
+
+
+def _offset_obligation(prog, f, L, B, sink, d, n, cap):
+    """None if d points to the start of the buffer; otherwise a verdict for  offset + length <= capacity"""
+    O = _buffer_offset(prog, f, L, d)
+    if O is None:
+        return ("X", repr(cap), "non-linear offset into the buffer")
+    if not O:
+        return None
+    nb = _uncast(n)
+    if L.is_const(O):
+        c = O.get(None, 0)
+        if c < 0:
+            return ("X", repr(cap), "negative offset into the buffer")
+        if cap.const is not None and cap.const >= c and B.bounded(n, sink, Cap(const=cap.const - c, desc=cap.desc)):
+            return ("G", repr(cap), "constant offset %d + length <= capacity" % c)
+        return ("X", repr(cap), "constant offset %d into the buffer: no derivation of offset + length <= capacity" % c)
+
+    # the offset as it occurs in the pointer: one index (any width; comparisons on the same value talk about the
+    # same number) or a sum that a 64 bit expression of the same linear form reproduces
+    single = None
+    v = d
+    idxs = []
+    while v.is_inst and v.op in ("bitcast", "getelementptr"):
+        if v.op == "getelementptr":
+            for el in v.x["gep"]:
+                if el[0] in ("*", "[]") and not (el[1].is_const and el[1].is_int):
+                    idxs.append((el[1], el[2] if el[0] == "*" else el[3]))
+        v = v.ops[0]
+    if len(idxs) == 1 and idxs[0][1] == 1 and O.get(None, 0) == 0:
+        single = idxs[0][0]
+
+    def is_off(y):
+        if single is not None:
+            a, b = _uncast(single), _uncast(y)
+            if a is b or same_quantity(prog, f, a, b):
+                return True
+            if a.is_inst and b.is_inst and a.op == b.op and a.op not in ("load", "phi", "call") and _same_expr(prog, f, a, b):
+                return True
+        return _machine_exact(y) and L.form(y) == O
+
+    def within(x):
+        return B.is_cap(x, cap) or B.bounded(x, sink, cap)
+
+    # P4  element of a container:  offset = size * index, length = size, index < (a field of the same object);
+    #     capacity = count * size.  Relies on the container invariant  used <= count  (stated, not proven).
+    if single is not None:
+        m = _uncast(single)
+        if m.is_inst and m.op == "mul":
+            for S, I in ((m.ops[0], m.ops[1]), (m.ops[1], m.ops[0])):
+                sf = field_id(_uncast(S))
+                if not (sf and sf in cap.fields and same_quantity(prog, f, S, n)):
+                    continue
+                sp = strip_casts(_uncast(S).ops[0])
+                for (b, strict) in B.rel_facts(sink.bb, _uncast(I)):
+                    bu = _uncast(b)
+                    if strict and bu.is_inst and bu.op == "load" and field_id(bu) and field_id(bu) != sf:
+                        bp = strip_casts(bu.ops[0])
+                        if bp.is_inst and bp.op == "getelementptr" and sp.is_inst and sp.op == "getelementptr" and \
+                                strip_casts(bp.ops[0]) is strip_casts(sp.ops[0]):
+                            return ("G", repr(cap), "element access: offset = size * index, length = size, index < %s "
+                                    "(assumes the container invariant that this bound never exceeds the allocated "
+                                    "element count)" % field_id(bu))
+    # P1  length = X - offset, offset <= X, X <= capacity
+    if nb.is_inst and nb.op == "sub":
+        X, y = nb.ops
+        if is_off(y) and B._le_guarded(y, X, sink) and within(X):
+            return ("G", repr(cap), "length is  X - offset  with offset <= X <= capacity")
+    # P2  length <= C - offset, offset <= C, C <= capacity
+    for (b, _strict) in B.rel_facts(sink.bb, nb):
+        bu = _uncast(b)
+        if bu.is_inst and bu.op == "sub":
+            C, y = bu.ops
+            if is_off(y) and B._le_guarded(y, C, sink) and within(C):
+                return ("G", repr(cap), "guards: offset <= C, length <= C - offset, C <= capacity")
+    # P3  a 64 bit sum of the two, compared with the capacity
+    N = L.form(n)
+    want = L.add(O, N)
+    for cond, outcome, br in B.guards(sink.bb):
+        if not (cond.is_inst and cond.op == "icmp") or outcome not in (True, False):
+            continue
+        a, b2 = cond.ops
+        p = cond.pred
+        le = None
+        if p in ("ugt", "sgt") and outcome is False:
+            le = (a, b2)
+        elif p in ("ule", "sle") and outcome is True:
+            le = (a, b2)
+        elif p in ("ult", "slt") and outcome is False:
+            le = (b2, a)
+        elif p in ("uge", "sge") and outcome is True:
+            le = (b2, a)
+        elif p in ("ult", "slt") and outcome is True:
+            le = (a, b2)
+        elif p in ("ugt", "sgt") and outcome is True:
+            le = (b2, a)
+        if le is None:
+            continue
+        sm, bound = le
+        su = _uncast(sm)
+        if su.is_inst and su.op == "add" and getattr(su, "ty", "") == "i64" and _machine_exact(sm) and \
+                all(_narrow(o) for o in su.ops) and L.form(sm) == want and within(bound):
+            return ("G", repr(cap), "64 bit sum  offset + length  compared with the capacity")
+    return ("X", repr(cap), "offset into the buffer: no derivation of  offset + length <= capacity (a comparison of the "
+            "length alone, or of a sum that can wrap, does not bound the end of the access)")
+
+
+def _narrow(v):
+    """value extended from at most 32 bits (so a 64 bit sum of two of them cannot wrap)"""
+    while v.is_inst and v.op == "bitcast":
+        v = v.ops[0]
+    if v.is_inst and v.op == "zext":
+        return True
+    if v.is_const and v.is_int:
+        return v.uval < (1 << 32)
+    return False
